@@ -292,7 +292,7 @@ func run(s Script, v *vt.V) {
 		req.ContentLength = s.ContentLength
 	}
 	for k, val := range s.Headers {
-		req.Header.Set(k, val)
+		req.Header.Set(k, rawBytes(val))
 	}
 	w := httptest.NewRecorder()
 	h.ServeHTTP(w, req) // a panic is caught by vt and reported with the script
@@ -721,6 +721,11 @@ func genScript(t *rapid.T) Script {
 		// anything over the alphabet of the range grammar
 		s.Headers["Range"] = "bytes=" + rapid.StringOfN(rapid.SampledFrom([]rune("0123456789-, ")), 0, 8, -1).Draw(t, "rangeSpec")
 	}
+	if rapid.IntRange(0, 11).Draw(t, "obsText") == 0 {
+		// bytes above 0x7f, which net/http lets through: not UTF-8, and UTF-8
+		name := rapid.SampledFrom([]string{"Range", "Range", "Content-Range", "Content-Type"}).Draw(t, "obsTextHeader")
+		s.Headers[name] = rapid.SampledFrom([]string{"bytes=0-%E9", "bytes=%FF-1", "%80", "bytes=0-1%C3%A9", "0-%E94", "application/%C3%28json", "bytes=0-1,%A0"}).Draw(t, "obsTextValue")
+	}
 	hopt("Content-Range", []string{"0-0", "0-4", "5-9", "5-4", "1-0", "x-y", "0-99999999999999999999", "-1-2", "5-", "-", "0-17", "5-22", "9223372036854775806-9223372036854775807", "4-8"})
 	hopt("Content-Type", []string{ocispec.MediaTypeImageManifest, ocispec.MediaTypeImageIndex, "application/vnd.verif.opaque", "garbage", "application/octet-stream", ""})
 	switch rapid.IntRange(0, 5).Draw(t, "clKind") {
@@ -732,10 +737,27 @@ func genScript(t *rapid.T) Script {
 	return s
 }
 
+// rawBytes turns %XX in a header value of a script into the byte XX (header values may hold any byte
+// but CTLs - obs-text -, and a script is stored as JSON, which holds UTF-8 only).
+func rawBytes(s string) string {
+	var b []byte
+	for i := 0; i < len(s); i++ {
+		if s[i] == '%' && i+2 < len(s) {
+			if x, err := strconv.ParseUint(s[i+1:i+3], 16, 8); err == nil {
+				b = append(b, byte(x))
+				i += 2
+				continue
+			}
+		}
+		b = append(b, s[i])
+	}
+	return string(b)
+}
+
 var prop = &vt.Prop[Script]{
 	ID:   "C06",
 	Name: "ServeAnyRequest",
-	Rule: "requests built by hand (so that unparseable paths are reachable) and served in-process by ociserver over a recording, close-tracking wrapper of a pre-populated ocimem (3 repositories incl. a/blobs/uploads, blobs, image + index manifests with subject, tags - one naming a manifest of zero bytes, one left dangling by the deletion of its manifest -, an upload in progress; an eighth of the backends hand out readers that fail after 0-19 bytes: the response is then an error document or exactly the bytes delivered, never content with something appended; an eighth of the backends are read-only or fail every call with a fixed OCI error, handing back nil readers and writers) under every Options combination, a quarter of the time with a backend that rotates upload ids: method in {GET,HEAD,PUT,POST,PATCH,DELETE,OPTIONS,'',lower case,garbage}; path = one of 8 endpoint templates with slots from known / valid (routing words, 255-1000 byte names) / hostile names, digests, tags and upload ids (incl. ids whose base64 form needs the URL-safe alphabet), then mutated (segment dropped / duplicated / emptied, trailing slash, double slash, other prefix); query n,last,digest,mount,from each absent / empty / valid / malformed / repeated, raw malformed queries; Range, Content-Range, Content-Type headers from valid and boundary values (0-0, 5-4, 1-0, MaxInt64, negative, non-numeric, lone '-' and ',' forms, generated strings over the range alphabet); bodies (empty, 1 byte, blob, valid image / index manifests, truncated JSON) with matching, unknown (-1) and mismatching Content-Length; oracle = no panic; status >= 400 => OCI JSON error document whose status equals the specification's for its code; 2xx => the endpoint's mandated headers (Location - for uploads naming the id the backend's writer reports now -, Docker-Content-Digest, Range, Content-Range consistent with the body, Content-Length == body); no backend call with a repository, tag or digest that an independent reference reading of the grammars rejects; every reader and writer obtained from the backend closed; non-trivial = the request reached a handler or was rejected for a reason other than a foreign path; distinct = (method, template, mutation, status, header set, query)",
+	Rule: "requests built by hand (so that unparseable paths are reachable) and served in-process by ociserver over a recording, close-tracking wrapper of a pre-populated ocimem (3 repositories incl. a/blobs/uploads, blobs, image + index manifests with subject, tags - one naming a manifest of zero bytes, one left dangling by the deletion of its manifest -, an upload in progress; an eighth of the backends hand out readers that fail after 0-19 bytes: the response is then an error document or exactly the bytes delivered, never content with something appended; an eighth of the backends are read-only or fail every call with a fixed OCI error, handing back nil readers and writers) under every Options combination, a quarter of the time with a backend that rotates upload ids: method in {GET,HEAD,PUT,POST,PATCH,DELETE,OPTIONS,'',lower case,garbage}; path = one of 8 endpoint templates with slots from known / valid (routing words, 255-1000 byte names) / hostile names, digests, tags and upload ids (incl. ids whose base64 form needs the URL-safe alphabet), then mutated (segment dropped / duplicated / emptied, trailing slash, double slash, other prefix); query n,last,digest,mount,from each absent / empty / valid / malformed / repeated, raw malformed queries; Range, Content-Range, Content-Type headers from valid and boundary values (0-0, 5-4, 1-0, MaxInt64, negative, non-numeric, lone '-' and ',' forms, generated strings over the range alphabet, values with bytes above 0x7f); bodies (empty, 1 byte, blob, valid image / index manifests, truncated JSON) with matching, unknown (-1) and mismatching Content-Length; oracle = no panic; status >= 400 => OCI JSON error document whose status equals the specification's for its code; 2xx => the endpoint's mandated headers (Location - for uploads naming the id the backend's writer reports now -, Docker-Content-Digest, Range, Content-Range consistent with the body, Content-Length == body); no backend call with a repository, tag or digest that an independent reference reading of the grammars rejects; every reader and writer obtained from the backend closed; non-trivial = the request reached a handler or was rejected for a reason other than a foreign path; distinct = (method, template, mutation, status, header set, query)",
 	Gen:  genScript,
 	Run:  run,
 }
